@@ -24,12 +24,13 @@ Definition dialect_ns := list (string * kv).
 Definition read_opt (ns: dialect_ns) (key: string) : option bool :=
   match option_of ns key with KBool b => Some b | _ => None end.
 Definition opts_of (ns: dialect_ns) : opts :=
-  mkO (read_opt ns "serialize_by_alias") (read_opt ns "omit_none").
+  mkO (read_opt ns "serialize_by_alias") (read_opt ns "omit_none") (read_opt ns "omit_default").
 
 (* the attribute is a bool or Sentinel.MISSING (what Dialect declares) *)
 Definition opt_wf (ns: dialect_ns) (key: string) : bool :=
   match option_of ns key with KBool _ | KMissing => true | _ => false end.
-Definition ns_wf (ns: dialect_ns) : bool := opt_wf ns "serialize_by_alias" && opt_wf ns "omit_none".
+Definition ns_wf (ns: dialect_ns) : bool :=
+  opt_wf ns "serialize_by_alias" && opt_wf ns "omit_none" && opt_wf ns "omit_default".
 
 (* FD.merge(X), option part, as translated from the source *)
 Definition merged (fd x: dialect_ns) : PyK.res kv := merge_options (KNs fd) (KNs x) (KNs []).
@@ -188,6 +189,8 @@ Lemma in_loop_by_alias : In "serialize_by_alias" merge_loop_keys.
 Proof. simpl. tauto. Qed.
 Lemma in_loop_omit_none : In "omit_none" merge_loop_keys.
 Proof. simpl. tauto. Qed.
+Lemma in_loop_omit_default : In "omit_default" merge_loop_keys.
+Proof. simpl. tauto. Qed.
 
 Lemma read_merged a b r key :
   In key merge_loop_keys -> opt_wf b key = true ->
@@ -201,6 +204,15 @@ Qed.
 
 (* the layers of the mixin entry point (X with the call, FD as default) and of the codec entry point
    (FD.merge(X) as default) resolve every option of every class alike, unless X contradicts a Config *)
+Lemma opt_merge_swap x c fdo :
+  opt_compat x c = true ->
+  opt_or x (opt_or c (opt_or fdo false)) =
+  opt_or None (opt_or c (opt_or (match x with Some v => Some v | None => fdo end) false)).
+Proof.
+  unfold opt_compat. destruct x as [b|], c as [b'|]; simpl; intros H; try reflexivity.
+  apply Bool.eqb_prop in H. subst. reflexivity.
+Qed.
+
 Lemma format_layers_agree E fd ns r :
   ns_wf ns = true ->
   (forall k, In k merge_loop_keys ->
@@ -208,20 +220,19 @@ Lemma format_layers_agree E fd ns r :
   dialect_compat_o E (opts_of ns) = true ->
   forall d d', In d E -> same_shape d d' ->
     eff_by_alias (opts_of ns) (opts_of fd) d' = eff_by_alias no_opts (opts_of r) d /\
-    eff_omit_none (opts_of ns) (opts_of fd) d' = eff_omit_none no_opts (opts_of r) d.
+    eff_omit_none (opts_of ns) (opts_of fd) d' = eff_omit_none no_opts (opts_of r) d /\
+    eff_omit_default (opts_of ns) (opts_of fd) d' = eff_omit_default no_opts (opts_of r) d.
 Proof.
-  intros Hwf Hspec Hc d d' Hin [_ [_ [_ [[Hba Hon] _]]]].
-  unfold ns_wf in Hwf. apply andb_true_iff in Hwf. destruct Hwf as [W1 W2].
+  intros Hwf Hspec Hc d d' Hin [_ [_ [_ [[Hba Hon] [[Hod _] _]]]]].
+  unfold ns_wf in Hwf. apply andb_true_iff in Hwf. destruct Hwf as [Hwf W3].
+  apply andb_true_iff in Hwf. destruct Hwf as [W1 W2].
   unfold dialect_compat_o in Hc. rewrite forallb_forall in Hc. specialize (Hc d Hin).
-  apply andb_true_iff in Hc. destruct Hc as [C1 C2].
-  unfold eff_by_alias, eff_omit_none, opts_of. simpl. rewrite <- Hba, <- Hon.
-  rewrite (read_merged fd ns r _ in_loop_by_alias W1 Hspec), (read_merged fd ns r _ in_loop_omit_none W2 Hspec).
-  unfold opts_of in C1, C2. simpl in C1, C2. unfold opt_compat in C1, C2.
-  split.
-  - destruct (read_opt ns "serialize_by_alias") as [b|], (c_by_alias d) as [b'|]; simpl; try reflexivity.
-    apply Bool.eqb_prop in C1. subst. reflexivity.
-  - destruct (read_opt ns "omit_none") as [b|], (c_omit_none d) as [b'|]; simpl; try reflexivity.
-    apply Bool.eqb_prop in C2. subst. reflexivity.
+  apply andb_true_iff in Hc. destruct Hc as [Hc C3]. apply andb_true_iff in Hc. destruct Hc as [C1 C2].
+  unfold eff_by_alias, eff_omit_none, eff_omit_default, opts_of. simpl. rewrite <- Hba, <- Hon, <- Hod.
+  rewrite (read_merged fd ns r _ in_loop_by_alias W1 Hspec), (read_merged fd ns r _ in_loop_omit_none W2 Hspec),
+          (read_merged fd ns r _ in_loop_omit_default W3 Hspec).
+  unfold opts_of in C1, C2, C3. simpl in C1, C2, C3.
+  repeat split; apply opt_merge_swap; assumption.
 Qed.
 
 Section FormatTheorems.
@@ -293,7 +304,7 @@ Definition ns5 (ba on: kv) : dialect_ns :=
    ("no_copy_collections", KMissing)].
 Definition fd_toml : dialect_ns := ns5 KMissing (KBool true).       (* TOMLDialect.omit_none = True *)
 Definition E_fm : env :=
-  [mkC "A" None [mkF "x" (Some "a_x") TInt; mkF "y" None (TOpt TInt)] None (Some false) false false false true].
+  [mkC "A" None [mkF "x" (Some "a_x") TInt; mkF "y" None (TOpt TInt)] None (Some false) None [] false false false true].
 Definition v_fm := VObj "A" [("x", VInt 1); ("y", VNone)].
 
 Lemma format_priority_witness :
@@ -306,8 +317,8 @@ Proof. split; vm_compute; reflexivity. Qed.
 (* non-vacuity: TOML's built-in omit_none reaches the codec through the translated merge although the user dialect
    only asks for aliases; all three entry points give the same document *)
 Definition E_fx : env :=
-  [mkC "A" None [mkF "x" (Some "a_x") TInt; mkF "y" None (TOpt TInt)] None None false false false true;
-   mkC "B" None [mkF "l" None (TList (TData "A")); mkF "m" None (TDict (TData "A"))] None None false false false true].
+  [mkC "A" None [mkF "x" (Some "a_x") TInt; mkF "y" None (TOpt TInt)] None None None [] false false false true;
+   mkC "B" None [mkF "l" None (TList (TData "A")); mkF "m" None (TDict (TData "A"))] None None None [] false false false true].
 Definition v_fx := VObj "B" [("l", VList [VObj "A" [("x", VInt 1); ("y", VNone)]]);
                              ("m", VDict [("k", VObj "A" [("x", VInt 2); ("y", VInt 3)])])].
 Lemma format_example :
@@ -360,5 +371,5 @@ End BuiltinTheorems.
 
 (* TOML's omit_none is among them (non-vacuity of the built-in table w.r.t. the modelled options) *)
 Example builtin_toml_omit_none :
-  exists fd, In ("TOMLDialect", fd) builtin_dialects /\ opts_of fd = mkO None (Some true).
+  exists fd, In ("TOMLDialect", fd) builtin_dialects /\ opts_of fd = mkO None (Some true) None.
 Proof. eexists. split; [vm_compute; right; right; left; reflexivity|vm_compute; reflexivity]. Qed.
